@@ -12,7 +12,7 @@ ID = "C14"
 LEVEL = "model_checking"
 REWRITES = loader.REWRITES
 STUBS = ["NumPy shim (object arrays, shadow dtype/shape)", loader.SUMMARY_STUB]
-ASSUMPTIONS = ["dimensions are well-formed one-axis indexes (C07's invariant): strictly increasing row ids below N, no row under two categories, no empty entry",
+ASSUMPTIONS = ["dimensions are one-axis indexes with strictly increasing row ids below N and no row under two categories; entries are non-empty (C07) except in the 'allow_empty' configurations, where any entry may be empty",
                "N symbolic with N*scaffold < 2^30 (pooling off)", "total uncommon rows per category bounded by the cap; N itself unbounded below 2^30"]
 ENGINE_OPTS = {"quick": dict(wall_s=1200), "thorough": dict(wall_s=3400)}
 
@@ -47,6 +47,9 @@ def configs(tier, seed):
             for p in pats:
                 out.append(dict(D=D, E=E, cap=cap, commons=list(commons),
                                 present=[[d, v] for (d, v), x in zip(keys, p) if x]))
+            # entries with an empty row-id array (accepted by iindex.validate(); the walk guards against them)
+            if D >= 2 and (D == 2 or commons == commons_list[0]):
+                out.append(dict(D=D, E=E, cap=1 if D > 2 else cap, commons=list(commons), present=[[d, v] for (d, v) in keys], allow_empty=True))
     return out
 
 
@@ -61,7 +64,8 @@ def explore(cfg, eng, ctx):
         dims, ents = [], []
         for d in range(D):
             pres = {(v,): ((d, v) in present) for v in range(E)}
-            ix, es = cubes.sym_dim(eng, C, "d%d" % d, N, range(E), commons[d], cap=cap, present=pres)
+            ix, es = cubes.sym_dim(eng, C, "d%d" % d, N, range(E), commons[d], cap=cap, present=pres,
+                                   min_len=0 if cfg.get("allow_empty") else 1)
             dims.append(ix)
             ents.append(es)
         meta = [((), commons[d], ents[d]) for d in range(D)]
